@@ -530,6 +530,22 @@ theorem C16_io_fault_current :
   rw [h1, h2]
   exact ⟨C16_io_fault_checked, C16_io_fault_checked⟩
 
+/-- end to end with the I/O in front: `lexH` / `lexY` are what hcl / yaml.v2 make of the TEXT of a file (trusted
+libraries: any functions).  Whenever the text of the HCL file is read as the syntax `f`, `f` denotes `d` (no `<<` key)
+and the text of the YAML file is read as `d`, `ReadAmmoConfig` returns the same for both files under ANY two fault
+plans of the same kind (both clean, or both with some fault — of whatever sort, wherever) -/
+theorem C16_files_agree_under_io (lexH : List Char → Option HclFile) (lexY : List Char → Option V)
+    (th ty : List Char) (f : HclFile) (d : V) (hl : lexH th = some f) (hy : lexY ty = some d)
+    (hd : hclDescription current fns f = some d) (hm : hasMergeKey d = false)
+    (p q : IOPlan) (hpq : p.clean = q.clean) :
+    readAmmoConfig true (fun t => (lexH t).map (hclFilePath current fns)) th p =
+      readAmmoConfig true (fun t => (lexY t).map (yamlPath current)) ty q := by
+  cases hp : p.clean with
+  | true =>
+    rw [C16_io_clean_transparent _ _ _ p hp, C16_io_clean_transparent _ _ _ q (hpq ▸ hp)]
+    simp [hl, hy, C16_hcl_file_agrees f d hd hm]
+  | false => exact C16_io_fault_twins _ _ _ _ p q hp (hpq ▸ hp)
+
 /-- non-vacuity: a read fault after 3 bytes coinciding with a Close fault; a fault after the LAST byte; the unchecked
 front-end on a text whose prefix parses -/
 example : ({ readAt := some 3, closeF := true } : IOPlan).clean = false := by decide
